@@ -35,14 +35,21 @@ def sqTimes (p : Nat) : Nat → Nat → Nat
 
 /-- `ωs[i] = mg_mul64(p_i, g_i^(2^(32 - logsize)) mod p_i, rpowers[i][1])`: the Montgomery form of the
 root of order `2^logsize` -/
-def omegas (m : Mzp) : Option (List Nat) :=
-  (List.range m.w).mapM fun i =>
-    match Ymq.Gen.Params.NTT_PRIMES[i]?, m.rpowers[i]? with
-    | some (_, g), some ri =>
-      match ri[1]? with
-      | some r2 => mgMul64 (m.primes.getD i 0) (sqTimes (m.primes.getD i 0) (32 - m.k) g) r2
-      | none => none
-    | _, _ => none
+def omega1 (m : Mzp) (i : Nat) : Option Nat :=
+  match Ymq.Gen.Params.NTT_PRIMES[i]?, m.rpowers[i]? with
+  | some (_, g), some ri =>
+    match ri[1]? with
+    | some r2 => mgMul64 (m.primes.getD i 0) (sqTimes (m.primes.getD i 0) (32 - m.k) g) r2
+    | none => none
+  | _, _ => none
+
+def omegas (m : Mzp) : Option (List Nat) := (List.range m.w).mapM (omega1 m)
+
+/-- `roots[i] = rpowers[i][0]` (`R mod p_i`, the Montgomery form of 1) -/
+def one1 (m : Mzp) (i : Nat) : Option Nat :=
+  match m.rpowers[i]? with
+  | some ri => ri[0]?
+  | none => none
 
 /-- element-wise `mg_mul64` of two elements (`w` residues) -/
 def mulE (m : Mzp) (x y : List Nat) : Option (List Nat) :=
@@ -61,9 +68,7 @@ def rootsBig (m : Mzp) : Option (List (List Nat)) :=
   match omegas m with
   | none => none
   | some ws =>
-    match (List.range m.w).mapM (fun i => match m.rpowers[i]? with
-        | some ri => ri[0]?
-        | none => none) with
+    match (List.range m.w).mapM (one1 m) with
     | none => none
     | some one => rootsIter m ws (2 ^ m.k - 1) one [one]
 
@@ -95,12 +100,16 @@ def addsubE (m : Mzp) (x y : List Nat) : Option (List Nat × List Nat) :=
   else
     ((List.range m.w).mapM fun j => addsub1 (m.primes.getD j 0) (x.getD j 0) (y.getD j 0)).map List.unzip
 
+/-- one residue of `muladdsub_inplace`: `y ← mg_mul64(p, y, r)`, then the butterfly -/
+def muladdsub1 (p x y r : Nat) : Option (Nat × Nat) :=
+  match mgMul64 p y r with
+  | none => none
+  | some yr => addsub1 p x yr
+
 /-- `muladdsub_inplace(x, y, m)` on one element: `y ← y·r`, then the butterfly -/
 def muladdsubE (m : Mzp) (x y r : List Nat) : Option (List Nat × List Nat) :=
   ((List.range m.w).mapM fun j =>
-    match mgMul64 (m.primes.getD j 0) (y.getD j 0) (r.getD j 0) with
-    | none => none
-    | some yr => addsub1 (m.primes.getD j 0) (x.getD j 0) yr).map List.unzip
+    muladdsub1 (m.primes.getD j 0) (x.getD j 0) (y.getD j 0) (r.getD j 0)).map List.unzip
 
 /-- `muladdsub_inplace` over vectors of elements -/
 def muladdsubV (m : Mzp) : List (List Nat) → List (List Nat) → List (List Nat) →
